@@ -246,20 +246,22 @@ def computeErrorImpl32 (coefs : List Int) (shift : Nat) (xs : List Int) (errors 
   let errors := vecFill errors 0
   computeError32From coefs shift xs errors
 
-/-- `lpc::compute_error(qps, signal, errors)` on a caller-provided buffer. The `i64` path works on
-freshly allocated vectors and copies back with `zip`. -/
-def computeErrorInto (coefs : List Int) (shift : Nat) (xs : List Int) (errors : List Int) : Option (List Int) :=
+/-- `lpc::compute_error(qps, signal, errors)` on a caller-provided buffer: the buffer afterwards and
+the returned flag. The `i64` path works on freshly allocated vectors and copies back with `zip`. -/
+def computeErrorInto (coefs : List Int) (shift : Nat) (xs : List Int) (errors : List Int) :
+    Option (List Int × Bool) :=
   if errors.length < xs.length then none else          -- assert!(errors.len() >= signal.len())
   let maxabs := xs.foldl (fun m x => max m x.natAbs) 0
   let sumabs := coefs.foldl (fun s c => s + c.natAbs) 0
-  if maxabs * sumabs < 2 ^ 31 - 1 then computeErrorImpl32 coefs shift xs errors
+  if maxabs * (sumabs + 1) < 2 ^ 31 - 1 then (computeErrorImpl32 coefs shift xs errors).map fun es => (es, true)
   else
     let errors64 := computeError64 coefs shift xs
-    some (zipOverwrite errors64 errors)
+    some (zipOverwrite errors64 errors, fitsResidual64 coefs shift xs)
 
 /-- The closure of `estimated_qlpc`: `errors.resize(signal.len(), 0); compute_error(..)`; the whole
-buffer is then handed to `encode_residual`. -/
-def qlpcErrors (stale : List Int) (coefs : List Int) (shift : Nat) (signal : List Int) : Option (List Int) :=
+buffer is then handed to `encode_residual` if the flag is set. -/
+def qlpcErrors (stale : List Int) (coefs : List Int) (shift : Nat) (signal : List Int) :
+    Option (List Int × Bool) :=
   let errors := vecResize stale signal.length 0
   computeErrorInto coefs shift signal errors
 
@@ -510,7 +512,7 @@ inductive Call
 /-- What the surrounding code reads back from the site. -/
 inductive Reply
   | fixed (errs : List (List Int))     -- `errors[k].as_ref()`, k = 0..4
-  | qlpc (errs : List Int)
+  | qlpc (errs : List Int) (fits : Bool)
   | ms (rd : MsRead)
   | find (p : PrcParameter)
   | bytes (bs : List Nat)
@@ -531,7 +533,7 @@ def stepAll (st : ThreadState) : Call → Option (ThreadState × Reply)
     let e := resetFixedLpcErrors st.fixed signal
     some ({ st with fixed := e }, .fixed ((List.range 5).map (readErrors e)))
   | .qlpc coefs shift signal =>
-    (qlpcErrors st.qlpc coefs shift signal).map fun e => ({ st with qlpc := e }, .qlpc e)
+    (qlpcErrors st.qlpc coefs shift signal).map fun e => ({ st with qlpc := e.1 }, .qlpc e.1 e.2)
   | .ms size l r =>
     (msFrameBuf st.ms size l r).map fun p => ({ st with ms := p.1 }, .ms p.2)
   | .find signal warm maxP =>
